@@ -12,7 +12,7 @@ from __future__ import annotations
 import z3
 
 from pyvc.core import T, LoopSpec
-from pyvc.spec import Clause, Contract, RaiseClause
+from pyvc.spec import Clause, Contract, Lemma, RaiseClause
 from pyvc.values import And_, Implies_, Not_, Or_, interval_view
 
 from cfdppy.handler.dest import LostSegmentTracker
@@ -72,9 +72,18 @@ def _add_pre(o):
     return z3.And(tr_wf(D(o)), 0 <= a, a < b, z3.ForAll([X], z3.Implies(z3.And(a <= X, X < b), z3.Not(view(D(o), X)))))
 
 
+def _key_disjoint(o, k):
+    a, b = o.lost_seg
+    d = D(o)
+    return z3.Implies(d.dom[k], z3.Or(d.val[k] <= a, b <= k))
+
+
 CONTRACTS.append(Contract(
     P + "add_lost_segment", arg_types={**SELF, "lost_seg": T.Pair}, props=PROPS, modifies=["self.lost_segments"],
     requires=[("disjoint_nonempty", _add_pre)],
+    # key-level form of the byte-level disjointness precondition (witness byte: max(a, k))
+    pre_lemmas=[Lemma("key_disjoint", 1, _key_disjoint,
+                      hints=lambda o, k: [view(D(o), z3.If(k >= o.lost_seg[0], k, o.lost_seg[0]))])],
     ensures=[
         Clause("C18.add_view", lambda o, n, r: z3.ForAll([X], view(D(n), X) == z3.Or(
             view(D(o), X), z3.And(o.lost_seg[0] <= X, X < o.lost_seg[1]))), PROPS),
